@@ -709,6 +709,65 @@ def check_all_actors(world, rec, skip=None):
     return True
 
 
+class ArgRecorder:
+    """Forwards method calls to the real object and remembers the argument objects, so that
+    they can be changed *after* the call: a network that stored a caller's list / dict / set by
+    reference instead of copying it changes with them."""
+
+    def __init__(self, obj):
+        object.__setattr__(self, "_o", obj)
+        object.__setattr__(self, "captured", [])
+
+    def __getattr__(self, name):
+        attr = getattr(self._o, name)
+        if callable(attr):
+            def wrapper(*a, **k):
+                self.captured.append((a, k))
+                return attr(*a, **k)
+            return wrapper
+        return attr
+
+    def __setitem__(self, k, v):
+        self._o[k] = v
+
+
+POISON = "__poison__"
+
+
+def poison_args(x, depth=0):
+    """mutate caller-owned containers: members lists / sets get a new element, attribute dicts a
+    new key; values *inside* attribute dicts are left alone (xgi documents shallow updates)"""
+    n = 0
+    if depth > 3:
+        return 0
+    if isinstance(x, dict):
+        try:
+            for k, v in list(x.items()):
+                if isinstance(v, (list, set, tuple)) and not isinstance(k, str):
+                    n += poison_args(v, depth + 1)  # {edge_id: members}
+            x[POISON] = 1
+            n += 1
+        except Exception:
+            pass
+    elif isinstance(x, list):
+        for el in list(x):
+            if isinstance(el, (list, dict, set, tuple)):
+                n += poison_args(el, depth + 1)
+        x.append(POISON)
+        n += 1
+    elif isinstance(x, set):
+        x.add(POISON)
+        n += 1
+    elif isinstance(x, tuple):
+        for el in x:
+            if isinstance(el, (list, dict, set, tuple)):
+                n += poison_args(el, depth + 1)
+    return n
+
+
+NOT_METHOD_OPS = {"convert_labels_to_integers", "largest_connected_hypergraph", "set_net_attr"}
+
+
 def exec_mutation(world, actor, rec):
     xgi = world.xgi
     cfg = world.cfg
@@ -716,6 +775,7 @@ def exec_mutation(world, actor, rec):
     fault = rec.get("fault")
     a = {k: dec(v) for k, v in rec["args"].items()}
     call, mop, margs, info = build(actor.kind, op, a, fault)
+    margs = deepcopy(margs)  # the SUT's argument objects are changed after the call (poison_args)
     pre = actor.snap
     iprop = INTEGRITY_PROP[actor.kind]
     world.stats["op:" + actor.kind + "." + op] += 1
@@ -732,13 +792,27 @@ def exec_mutation(world, actor, rec):
     exc = None
     with warnings.catch_warnings(record=True) as wl:
         warnings.simplefilter("always")
+        recorder = ArgRecorder(actor.sut) if op not in NOT_METHOD_OPS else None
         try:
-            call(actor.sut)
+            call(recorder if recorder is not None else actor.sut)
         except Exception as ex:  # noqa
             exc = ex
     warns = real_warnings(wl)
     world.last_exc = exc
     post, anomalies = snapshot(actor.sut)
+    if recorder is not None and recorder.captured and exc is None:
+        npois = sum(poison_args(a_) + poison_args(k_) for a_, k_ in recorder.captured)
+        if npois:
+            again, _ = snapshot(actor.sut)
+            world.stats["caller_arguments_poisoned_after_call"] += npois
+            if digest_form(again) != digest_form(post):
+                world.find({"C05"}, "caller_argument_aliased", rec, actor.kind,
+                           "changing the caller's own argument objects after the call returned changed the "
+                           f"network: {digest_form(post)!r} -> {digest_form(again)!r}"[:700])
+                actor.snap = again
+                actor.model = M.model_from_snapshot(actor.kind, again, frozen=actor.model.frozen) \
+                    if not integrity(again) else actor.model
+                return False
     outcome = "ok" if exc is None else ("lib" if is_lib_exc(xgi, exc) else type(exc).__name__)
     world.logev("step", rec["uid"], actor.name, op, (fault or {}).get("kind"), outcome, digest_form(post))
     if fault and fault["kind"] == "dying":
